@@ -11,7 +11,7 @@ from .values import PClass, PFunc, PModule, StubModule
 NATIVE_OK = {
     "abc", "ast", "base64", "binascii", "collections", "contextlib", "datetime", "functools", "hashlib", "io", "ipaddress", "itertools", "json",
     "keyword", "logging", "math", "operator", "os", "pathlib", "posixpath", "re", "reprlib", "shlex", "struct", "sys", "textwrap", "typing", "urllib",
-    "warnings", "zoneinfo", "__future__", "importlib", "pkgutil", "socket", "csv", "sqlite3", "gzip", "bz2", "zipimport", "argparse", "binascii", "string",
+    "warnings", "zoneinfo", "__future__", "importlib", "pkgutil", "socket", "csv", "sqlite3", "gzip", "bz2", "zipimport", "argparse", "binascii", "string", "unicodedata",
 }
 
 
